@@ -81,7 +81,11 @@ func decodeWithWatchdog(b []byte, limit time.Duration) (msg *dns.Message, err er
 				ch <- res{p: p}
 			}
 		}()
-		m, err := dns.DecodeMessage(b)
+		in := b
+		if len(b)%2 == 1 { // a buffer with spare capacity, as io.ReadAll or buf[:n] hand it over
+			in = append(make([]byte, 0, len(b)+257), b...)
+		}
+		m, err := dns.DecodeMessage(in)
 		ch <- res{m: m, err: err}
 	}()
 	select {
